@@ -485,3 +485,16 @@ def paths_of(func, **kw):
     ex = Explorer(func, **kw)
     ps = ex.run()
     return ps, ex
+
+
+def paths_of_block(func, stmts, **kw):
+    """Path summaries of a statement list (e.g. one iteration of a loop body) of ``func``."""
+    ex = Explorer(func, **kw)
+    p = Path()
+    p.env.update(ex.init_env)
+    done = []
+    live = ex._block(list(stmts), [p], done)
+    for q in live:
+        q.outcome = ('fall', None)
+        done.append(q)
+    return done, ex
